@@ -26,6 +26,7 @@
 #include "helpers.h"
 #include "keyfile.h"
 
+#include <ctype.h>
 #include <errno.h>
 #include <float.h>
 #include <inttypes.h>
@@ -70,14 +71,24 @@ econf_err key_file_append(econf_file *kf) {
 
 /* --- GETTERS --- */
 
+/* strtoul() and strtoull() accept a minus sign and return the negated value
+   as unsigned number without any error.  */
+static bool is_negative(const char *value) {
+  while (isspace((unsigned char)*value))
+    value++;
+  return *value == '-';
+}
+
 econf_err getIntValueNum(econf_file key_file, size_t num, int32_t *result) {
   char *endptr;
   if (key_file.file_entry[num].value == NULL)
     return ECONF_KEY_HAS_NULL_VALUE;
   errno = 0;
-  *result = strtol(key_file.file_entry[num].value, &endptr, 0);
-  if (endptr == key_file.file_entry[num].value || errno == ERANGE || (errno != 0 && *result == 0))
+  long value = strtol(key_file.file_entry[num].value, &endptr, 0);
+  if (endptr == key_file.file_entry[num].value || errno == ERANGE || (errno != 0 && value == 0) ||
+      value < INT32_MIN || value > INT32_MAX) /* long is wider than int32_t */
     return ECONF_VALUE_CONVERSION_ERROR;
+  *result = (int32_t) value;
   return ECONF_SUCCESS;
 }
 
@@ -97,9 +108,12 @@ econf_err getUIntValueNum(econf_file key_file, size_t num, uint32_t *result) {
   if (key_file.file_entry[num].value == NULL)
     return ECONF_KEY_HAS_NULL_VALUE;
   errno = 0;
-  *result = strtoul(key_file.file_entry[num].value, &endptr, 0);
-  if (endptr == key_file.file_entry[num].value || errno == ERANGE || (errno != 0 && *result == 0))
+  unsigned long value = strtoul(key_file.file_entry[num].value, &endptr, 0);
+  if (endptr == key_file.file_entry[num].value || errno == ERANGE || (errno != 0 && value == 0) ||
+      value > UINT32_MAX || /* unsigned long is wider than uint32_t */
+      (value != 0 && is_negative(key_file.file_entry[num].value)))
     return ECONF_VALUE_CONVERSION_ERROR;
+  *result = (uint32_t) value;
   return ECONF_SUCCESS;
 }
 
@@ -109,7 +123,8 @@ econf_err getUInt64ValueNum(econf_file key_file, size_t num, uint64_t *result) {
     return ECONF_KEY_HAS_NULL_VALUE;
   errno = 0;
   *result = strtoull(key_file.file_entry[num].value, &endptr, 0);
-  if (endptr == key_file.file_entry[num].value || errno == ERANGE || (errno != 0 && *result == 0))
+  if (endptr == key_file.file_entry[num].value || errno == ERANGE || (errno != 0 && *result == 0) ||
+      (*result != 0 && is_negative(key_file.file_entry[num].value)))
     return ECONF_VALUE_CONVERSION_ERROR;
   return ECONF_SUCCESS;
 }
